@@ -93,8 +93,14 @@ def h_sizes(data_size: int, k: int, n: int, multiple: bool) -> bool:
     enc.set_params(data_size, k, n)
     dec = codec.CRSDecoder()
     dec.set_params(data_size, k, n)
-    if _FakeZfec.made != [("enc", k, n), ("dec", k, n)]:
+    # a second decoder for the same k but another N (another file / another encoding) must get its own (k, N)
+    n2 = n + 1 if (n < 256 or n - 1 < k) else n - 1
+    dec2 = codec.CRSDecoder()
+    dec2.set_params(data_size, k, n2)
+    if (enc.encoder.k, enc.encoder.n) != (k, n) or (dec.decoder.k, dec.decoder.n) != (k, n):
         return "zfec encoder/decoder not built with (k, n)"
+    if (dec2.decoder.k, dec2.decoder.n) != (k, n2) or (dec.decoder.k, dec.decoder.n) != (k, n):
+        return "a decoder for (k, N') works with the zfec object of another N"
     bs = enc.get_block_size()
     if bs != dec.share_size:
         return "encoder block size != decoder share size"
@@ -158,19 +164,20 @@ def h_decode_checks(data_size: int, k: int, n: int, nshares: int, nids: int, idb
     dec.set_params(data_size, k, n)
     shares = [ProvBuf.src("blk%d" % i, dec.share_size, 0) for i in range(nshares)]
     ids = [idbase + i for i in range(nids)]
+    before = len(dec.decoder.calls)        # (the zfec object may legitimately be shared/cached between decoders)
     out = _collect(dec.decode(shares, ids))
     ok = (nshares == nids and nshares == k)
     if not ok:
         if len(out) != 1 or not isinstance(out[0], Failure) or not out[0].check(AssertionError):
             return "decode with a number of blocks/ids other than exactly k each was not refused"
-        if dec.decoder.calls:
+        if len(dec.decoder.calls) != before:
             return "zfec.decode was called with the wrong number of blocks"
         return True
     if len(out) != 1 or isinstance(out[0], Failure):
         return "valid decode request failed: %r" % (out,)
-    if len(dec.decoder.calls) != 1:
+    if len(dec.decoder.calls) != before + 1:
         return "zfec.decode not called exactly once"
-    (s_, i_) = dec.decoder.calls[0]
+    (s_, i_) = dec.decoder.calls[-1]
     if s_ is not shares or i_ != ids:
         return "blocks / ids not passed through in order"
     if out[0] != ("decoded", shares, ids):
@@ -216,9 +223,10 @@ retrieve_mod.time = NS(time=_tick)
 retrieve_mod.defer_to_thread = _sync_defer_to_thread
 NOTES.append("ideal erasure code for the trim obligations: zfec.Decoder.decode returns the k primary blocks (the padded segment cut into k equal pieces, provenance 'seg'); "
              "time sources in downloader.node / mutable.retrieve replaced by a counter; retrieve.defer_to_thread synchronous")
-_imm_decode = hlib.strip_logs(node_mod.DownloadNode._decode_blocks, consts=hlib.PROV_CONSTS)
-_mut_decode = hlib.strip_logs(retrieve_mod.Retrieve._decode_blocks, consts=hlib.PROV_CONSTS)
-_mut_setup = hlib.strip_logs(retrieve_mod.Retrieve._setup_encoding_parameters)
+from _stripall import strip_all
+# every method of both classes: log lines removed, b"".join / b"\x00"*n stand-ins for provenance buffers, wherever they are written
+strip_all(node_mod.DownloadNode, consts=hlib.PROV_CONSTS)
+strip_all(retrieve_mod.Retrieve, consts=hlib.PROV_CONSTS)
 hlib.encoded(node_mod.DownloadNode._calculate_sizes)
 
 
@@ -271,7 +279,7 @@ def h_immutable_trim(size: int, segsize: int, segnum: int, p: int) -> bool:
         main.set_params(segsize, k, k + 2)
         nd._codec = main
         blocks = dict((i + 1, ProvBuf.src("blk%d" % i, bs, 0)) for i in range(k))
-        out = _collect(_imm_decode(nd, segnum, blocks))
+        out = _collect(nd._decode_blocks(segnum, blocks))
     finally:
         codec.zfec = saved
     if len(out) != 1 or isinstance(out[0], Failure):
@@ -292,18 +300,19 @@ def h_mutable_trim(datalength: int, segsize: int, segnum: int, p: int) -> bool:
     """
     k = B.get("k", 3)
     logs = []
-    me = NS(verinfo=(1, b"root", None, segsize, datalength, k, k + 2, b"prefix", ()), _offset=0, _read_length=datalength,
-            _data_length=datalength, log=lambda *a, **kw: 0, _status=_DSt(), _set_current_status=logs.append)
+    me = retrieve_mod.Retrieve.__new__(retrieve_mod.Retrieve)
+    me.__dict__.update(dict(verinfo=(1, b"root", None, segsize, datalength, k, k + 2, b"prefix", ()), _offset=0, _read_length=datalength,
+                            _data_length=datalength, log=lambda *a, **kw: 0, _status=_DSt(), _set_current_status=logs.append))
     saved = codec.zfec
     codec.zfec = _IdealZfec
     try:
-        _mut_setup(me)
+        me._setup_encoding_parameters()
         assume(segnum < me._num_segments)
         tail = segnum == me._num_segments - 1
         dec = me._tail_decoder if tail else me._segment_decoder
         bs = dec.share_size
         results = [dict((i + 1, (ProvBuf.src("blk%d" % i, bs, 0), b"salt")) for i in range(k))]
-        out = _collect(_mut_decode(me, results, segnum))
+        out = _collect(me._decode_blocks(results, segnum))
     finally:
         codec.zfec = saved
     if len(out) != 1 or isinstance(out[0], Failure):
